@@ -9,7 +9,7 @@
    clear, at a time t with t_insert <= t < t_insert + min(max_ttl, lifetime its TTLs allow), and all
    TTLs the caller reads equal max(0, ttl - (t - t_insert)). *)
 From CAres.Base Require Import CInt.
-From CAres.Core Require Import QCache QCacheSpec QCache_proofs SrvUpdate SrvUpdate_proofs.
+From CAres.Core Require Import QCache QCacheSpec QCache_proofs SrvUpdate SrvUpdate_proofs SrvUpdate_more.
 From CAres.Gen Require Import Consts LeafFns.
 
 Theorem C08_hit_sound : forall mx ops,
@@ -65,6 +65,49 @@ Theorem C08_flush_edit_examples :
   snd (servers_update 0 0 false ex_cur [exA; exA; mkSc 2 53 53; exB]) = false.
 Proof. exact ex_edits. Qed.
 Print Assumptions C08_flush_edit_examples.
+
+(* both settings of ARES_FLAG_PRIMARY (the flag trims the channel to the first server after the
+   update, ares_servers_trim_single): the channel afterwards holds exactly the configured sequence
+   [spec_seq_after] (the sequence the end-to-end engine chan08 judges hits against), and if the
+   cache is NOT flushed the WHOLE new list is the previous sequence. *)
+Theorem C08_flush_on_list_change_any_flag : forall cu ct primary cur C new cur' changed,
+  denotes cur C -> servers_update cu ct primary cur new = (cur', changed) ->
+  denotes cur' (spec_seq_after cu ct primary new) /\
+  (changed = false ->
+   dedupk [] (map (resolve cu ct) new) = C /\ spec_seq_after cu ct primary new = seq_kept primary C).
+Proof. exact update_flushes_on_change_any_flag. Qed.
+Print Assumptions C08_flush_on_list_change_any_flag.
+
+(* [length C <= 1]: what every ARES_FLAG_PRIMARY update leaves behind (previous theorem) *)
+Theorem C08_flush_on_list_change_any_flag_contrapositive : forall cu ct primary cur C new cur' changed,
+  denotes cur C -> (primary = true -> (length C <= 1)%nat) ->
+  servers_update cu ct primary cur new = (cur', changed) ->
+  spec_seq_after cu ct primary new <> C -> changed = true.
+Proof. exact flush_on_list_change_any_flag. Qed.
+Print Assumptions C08_flush_on_list_change_any_flag_contrapositive.
+
+(* no spurious flush: configuring the sequence the channel already has (the identical list, or one
+   that only repeats entries) touches no server and keeps the cache; hence, without the flag, the
+   cache is flushed IF AND ONLY IF the configured sequence changed *)
+Theorem C08_no_spurious_flush : forall cu ct cur C new,
+  denotes cur C -> dedupk [] (map (resolve cu ct) new) = C ->
+  servers_update cu ct false cur new = (cur, false).
+Proof. exact no_spurious_flush. Qed.
+Print Assumptions C08_no_spurious_flush.
+
+Theorem C08_flush_iff_list_changed : forall cu ct cur C new,
+  denotes cur C ->
+  (snd (servers_update cu ct false cur new) = false <-> dedupk [] (map (resolve cu ct) new) = C).
+Proof. exact flush_iff_list_changed. Qed.
+Print Assumptions C08_flush_iff_list_changed.
+
+Theorem C08_flush_more_examples :
+  servers_update 0 0 false ex_cur [exA; exB] = (ex_cur, false) /\
+  servers_update 0 0 false ex_cur [exA; exA; exB; exA] = (ex_cur, false) /\
+  servers_update 0 0 true ex_cur [exB; exA] = ([mkSrv (2%Z, 53%Z, 53%Z) 0], true) /\
+  servers_update 0 0 true [mkSrv (2%Z, 53%Z, 53%Z) 0] [exB] = ([mkSrv (2%Z, 53%Z, 53%Z) 0], false).
+Proof. exact more_examples. Qed.
+Print Assumptions C08_flush_more_examples.
 
 (* the generated ares_dns_rr_get_ttl ages every TTL by the record's ttl_decrement, never below 0 *)
 Theorem C08_ttl_aged : forall ttl dec,
